@@ -110,10 +110,43 @@ def scramble(x):
             scramble(v)
 
 
-def one_case(sh, fa, SRE, rng, case, drop_bytes_default_fields=False):
+def _pt(ns, fields):
+    return {"type": "record", "name": "Point", "namespace": ns, "fields": fields}
+
+
+# hand-made evolutions of shapes the random evolver rarely composes: a type defined in place on
+# one side where the other side has the by-name reference, under another namespace, itself evolved
+TARGETED = [
+    ({"type": "record", "name": "Shape", "namespace": "v1", "fields": [
+        {"name": "first", "type": _pt("v1", [{"name": "x", "type": "int"}, {"name": "y", "type": "int"}])}, {"name": "second", "type": "v1.Point"}]},
+     {"type": "record", "name": "Shape", "namespace": "v2", "fields": [
+         {"name": "second", "type": _pt("v2", [{"name": "x", "type": "double"}, {"name": "y", "type": "int"}, {"name": "z", "type": "int", "default": -1}])},
+         {"name": "first", "type": "v2.Point"}]},
+     {"first": {"x": 1, "y": 2}, "second": {"x": 3, "y": 4}}),
+    ({"type": "record", "name": "Shape", "namespace": "v1", "fields": [
+        {"name": "first", "type": _pt("v1", [{"name": "x", "type": "int"}])}, {"name": "more", "type": {"type": "array", "items": "Point"}},
+        {"name": "opt", "type": ["null", "v1.Point"]}]},
+     {"type": "record", "name": "Shape", "namespace": "v1", "fields": [
+         {"name": "opt", "type": ["null", _pt("v1", [{"name": "x", "type": "long"}, {"name": "w", "type": "string", "default": "w"}])]},
+         {"name": "more", "type": {"type": "array", "items": "Point"}}]},
+     {"first": {"x": 1}, "more": [{"x": 2}, {"x": 3}], "opt": {"x": 4}}),
+    ({"type": "record", "name": "Pick", "fields": [{"name": "u", "type": ["null",
+        {"type": "record", "name": "Circle", "fields": [{"name": "r", "type": "int"}]}, {"type": "record", "name": "Square", "fields": [{"name": "s", "type": "int"}]}]}]},
+     {"type": "record", "name": "Pick", "fields": [{"name": "u", "type": ["null",
+         {"type": "record", "name": "Square", "fields": [{"name": "s", "type": "long"}, {"name": "t", "type": "int", "default": 0}]},
+         {"type": "record", "name": "Circle", "fields": [{"name": "r", "type": "double"}]}]}]},
+     {"u": {"r": 5}}),
+    ({"type": "record", "name": "Tok", "fields": [{"name": "e", "type": {"type": "enum", "name": "Lvl", "symbols": ["LO", "MID", "HI"], "default": "LO"}},
+                                                {"name": "e2", "type": "Lvl"}]},
+     {"type": "record", "name": "Tok", "fields": [{"name": "e2", "type": {"type": "enum", "name": "Lvl", "symbols": ["HI", "LO"]}}, {"name": "e", "type": "Lvl"}]},
+     {"e": "HI", "e2": "MID"}),
+]
+
+
+def one_case(sh, fa, SRE, rng, case, drop_bytes_default_fields=False, reader_given=None):
     wjs, wnode, d = case["schema"], case["node"], case["datum"]
     ev = Evolver(rng)
-    rjs, steps = ev.evolve(wjs)
+    rjs, steps = (copy.deepcopy(reader_given), ["hand_made"]) if reader_given is not None else ev.evolve(wjs)
     if drop_bytes_default_fields:
         rjs = _drop_fields(rjs, "added_bytes")
     try:
@@ -261,6 +294,12 @@ def run_shard(spec):
         st, got = guard(lambda: fa.schemaless_reader(io.BytesIO(data), copy.deepcopy(info["writer"]), copy.deepcopy(info["reader"])))
         judge(sh, SRE, st, got, verdict, want, info, "schemaless_reader")
         return sh.result()
+    if spec["shard"] == 0:
+        for wjs, rjs, d in TARGETED:
+            wnode, _e = RS.build(wjs)
+            for k in range(4):
+                sh.run_case(one_case, sh, fa, SRE, random.Random(k), {"schema": wjs, "node": wnode, "datum": d, "features": set()}, False, rjs)
+            sh.count("hand_made_evolutions")
     i = 0
     while i < spec["n"] and not sh.out_of_time():
         i += 1
